@@ -45,8 +45,9 @@ def rustParse (s : String) : Option UInt64 :=
           let ed := t.takeWhile isDigit
           if ed.isEmpty then none
           else
-            -- very long exponents saturate
-            let ev : Int := if ed.length > 7 then 100000 else (digitsVal ed : Int)
+            -- very long exponents saturate (leading zeros do not count: `1e00000000` is 1)
+            let sig := ed.dropWhile (· == '0')
+            let ev : Int := if sig.length > 7 then 100000 else (digitsVal sig : Int)
             some (if eneg then -ev else ev, t.dropWhile isDigit)
         else some (0, r2)
       | [] => some (0, [])
